@@ -239,6 +239,24 @@ func init() {
 	})
 }
 
+func init() {
+	addSpec(&propSpec{
+		ID:          "C17",
+		Rule:        "call histories: ALL sequences of length <= 4 (thorough 5) over the Writer alphabet {Apply(BlockChecksum|BlockSize256K|Size777|NoChecksum|LegacyOn|LegacyOff), Write(0|100|65536|70000), ReadFrom(1000), Flush, Close, Reset(same sink|new sink)} on a sequential and on a concurrent (4) Writer, and over the Reader alphabet {Apply(Concurrency), Read(0|100|70000), ReadUntilEOF, WriteTo, Size, Reset(onto frame A | legacy frame B | block-checksummed frame C)} on sequential and concurrent Readers with and without trailing bytes after the frame; plus 3000 (thorough 40000) seeded random sequences of length 5..12 each. Each sequence runs in a child process on the main goroutine (runtime deadlock detector), with budgeted sinks and sources (runaway-loop detector). The model asserts only the property's clauses: no hang/panic; a nil Close => the bytes since the last Reset are one valid frame with the accepted data once and in order and the options of the epoch; Apply refused while writing; an epoch after Reset equals a fresh object (differential replay of return values and bytes); writes after Close fail without output, second Close emits nothing; after end of stream Read = (0, io.EOF) without consuming the source; after Flush on a sequential Writer the sink decodes to everything written. A cell is (object, mode, abstract shape of the sequence).",
+		Assumptions: append([]string{"calls the property is silent about (ReadFrom after Write, WriteTo after a partial Read, ...) may return anything except a hang or a panic"}, baseAssumptions...),
+		MaxDeaths:   100000,
+		Watchdog:    func(tier string) int { return 600 },
+		Require: func(rs *runState) string {
+			for _, k := range []string{"closed_frames_validated", "epochs_replayed_on_fresh_object", "flush_prefix_checks", "reads_after_eof_checked", "streams_read_to_eof"} {
+				if rs.counters[k] == 0 {
+					return "the model clause behind " + k + " was never exercised"
+				}
+			}
+			return ""
+		},
+	})
+}
+
 // c12Join compares the result logs of the asm and noasm workers shard by shard.
 func c12Join(rs *runState) {
 	for shard := 0; shard < 16; shard++ {
